@@ -301,4 +301,105 @@ def resample (xin yin xout : List Rat) (avg : Bool) : Option (List Rat) :=
   if xin.length ≠ yin.length + 1 then none
   else (cellsOf xout).mapM (fun c => resampleCell xin yin avg c.1 c.2)
 
+/-! ### the decusping pipeline (`UniformMeshGenerator._decuspAxialMesh`) -/
+
+def lmin : List Rat → Option Rat
+  | [] => none
+  | a :: t => some (t.foldl rmin a)
+
+def lmax : List Rat → Option Rat
+  | [] => none
+  | a :: t => some (t.foldl rmax a)
+
+/-- `_getFilteredMeshTopAndBottom(flags, bottoms, tops)` for one side: the assemblies' boundaries of that kind, joined
+with the anchors handed in (or anchored at their own extreme when none are handed in); `none` = the code raises -/
+def filteredBounds (m : Rat) (bounds : List Rat) (given : Option (List Rat)) (top : Bool) : Option (List Rat) :=
+  let all := (given.getD []) ++ bounds
+  let anchors? := match given with
+    | some g => some g
+    | none => (if top then lmax all else lmin all).map (fun x => [x])     -- min()/max() of an empty set raises
+  match anchors? with
+  | none => none
+  | some anch => match filterMesh all m anch top with
+    | .ok l => some l
+    | _ => none
+
+/-- `_decuspAxialMesh`: fuel bottoms/tops, then control bottoms/tops anchored at the fuel ones, the material anchors,
+the common mesh joined with bottoms (preference bottom) and tops (preference top), and the final combination with the
+material anchors (preference top). NOTE: the top of the common mesh is NOT among the anchors. -/
+def decusp (m : Rat) (common fuelB fuelT ctrlB ctrlT : List Rat) : Option (List Rat) := do
+  let fb ← filteredBounds m fuelB none false
+  let ft ← filteredBounds m fuelT none true
+  let mb ← filteredBounds m ctrlB (some fb) false
+  let mt ← filteredBounds m ctrlT (some ft) true
+  let anchors ← (match filterMesh (mb ++ mt) m (fb ++ ft) false with | .ok l => some l | _ => none)
+  let wb ← (match filterMesh (common ++ mb) m mb false with | .ok l => some l | _ => none)
+  let wt ← (match filterMesh (common ++ mt) m mt true with | .ok l => some l | _ => none)
+  match filterMesh (wb ++ wt) m anchors true with
+  | .ok l => some l
+  | _ => none
+
+/-! ### mass-conserving block mesh change (`Block.setHeight` / `adjustDensity`, `Assembly.setBlockMesh`) -/
+
+/-- `units.TRACE_NUMBER_DENSITY`: "add a little so components remember" -/
+def TRACE : Rat := 1 / 100000000000000000000000000000000000000000000000000
+
+/-- `Block.adjustDensity(frac, adjustList)` on the block's nuclide → density table: every listed nuclide with a
+non-zero density becomes `dens * frac + TRACE`; zeros and unlisted nuclides are left alone -/
+def adjustDensity (frac : Rat) (adjust : List Nat) (nd : List (Nat × Rat)) : List (Nat × Rat) :=
+  nd.map (fun x => if x.1 ∈ adjust ∧ x.2 ≠ 0 then (x.1, x.2 * frac + TRACE) else x)
+
+/-- `Block.setHeight(modifiedHeight, conserveMass, adjustList)`: new height and densities; `none` where the code
+raises (negative height; mass conservation without nuclides; division by a zero height) -/
+def setHeight (hOld hNew : Rat) (conserve : Bool) (adjust : List Nat) (nd : List (Nat × Rat)) :
+    Option (Rat × List (Nat × Rat)) :=
+  if hNew < 0 then none
+  else if conserve && decide (hOld ≠ hNew) then
+    (if adjust.isEmpty then none
+     else if hNew = 0 then none
+     else some (hNew, adjustDensity (hOld / hNew) adjust nd))
+  else some (hNew, nd)
+
+/-- a component as `setBlockMesh` sees it: FUEL flag?, fluid material?, its densities -/
+structure MComp where
+  fuel : Bool
+  fluid : Bool
+  nd : List Rat
+  deriving Repr, DecidableEq
+
+/-- conserveMassFlag: False / True / "auto" -/
+inductive CMode where
+  | off | all | auto
+  deriving Repr, DecidableEq
+
+/-- `_shouldMassBeConserved` + the `conserveMassFlag` switch: is the mass of this component conserved? -/
+def conserves (m : CMode) (assemFuel blockFuel belowFuel : Bool) (c : MComp) : Bool :=
+  match m with
+  | .off => false
+  | .all => true
+  | .auto => if blockFuel then c.fuel else if assemFuel then (belowFuel && !c.fluid) else false
+
+/-- one block of `setBlockMesh`: new height `newTop − zBottom`, listed components scaled by old/new height
+(`changeNDensByFactor(heightRatio)`); `none` = negative height / division by zero -/
+def meshBlock (m : CMode) (assemFuel blockFuel belowFuel : Bool) (hOld hNew : Rat) (cs : List MComp) :
+    Option (List MComp) :=
+  let conserveMass := match m with
+    | .off => false
+    | .all => true
+    | .auto => blockFuel || (assemFuel && belowFuel)
+  if hNew < 0 then none
+  else if conserveMass && decide (hNew = 0) then none      -- heightRatio = oldBlockHeight / b.getHeight()
+  else some (cs.map (fun c => if conserves m assemFuel blockFuel belowFuel c
+      then { c with nd := c.nd.map (fun d => d * (hOld / hNew)) } else c))
+
+/-- the loop of `setBlockMesh(blockMesh, conserveMassFlag)` over blocks `(isFuel, oldHeight, newTop, components)` -/
+def setBlockMesh (m : CMode) (assemFuel : Bool) : Bool → Rat → List (Bool × Rat × Rat × List MComp) →
+    Option (List (Rat × List MComp))
+  | _, _, [] => some []
+  | below, zb, (bf, hOld, top, cs) :: rest =>
+    let below' := if bf then false else below
+    match meshBlock m assemFuel bf below' hOld (top - zb) cs with
+    | none => none
+    | some cs' => (setBlockMesh m assemFuel below' top rest).map (fun r => (top - zb, cs') :: r)
+
 end ArmiVerif.Mesh
